@@ -86,7 +86,7 @@ func (x *Exec) oblige(kind string, st *State, goal *Term, at ast.Node, clause st
 	if x.onlyPost && !strings.HasPrefix(kind, "post") && kind != "lemma-pre" {
 		return
 	}
-	if x.panicsIf != nil && !strings.HasPrefix(kind, "post") && kind != "panics_iff.ret" && kind != "assert" && !strings.HasPrefix(kind, "inv") {
+	if x.panicsIf != nil && !strings.HasPrefix(kind, "post") && kind != "panics_iff.ret" && kind != "assert" && !strings.HasPrefix(kind, "inv") && kind != "typeinv" && kind != "shape" && kind != "frame" {
 		goal = mkOr(goal, x.panicsIf)
 	}
 	x.kindN[kind]++
@@ -478,7 +478,7 @@ func (x *Exec) contractCall(callee *types.Func, d *Decl, args []Value, st *State
 		}
 	}
 	for _, c := range d.Clauses {
-		if c.Kind == "ensures" || c.Kind == "derived" {
+		if c.Kind == "ensures" || c.Kind == "derived" || c.Kind == "defines" {
 			t := x.evalClause(pk, c, append(append(append([]Value{}, cargs...), gvals...), rvals...), st)
 			st.assume(t)
 		}
